@@ -307,14 +307,14 @@ def run(F, R, tier):
             "closest_index no longer selects the entry closest to the gauge-boson mass", key="R5|closest")
 
 
-def _check_tachyons(F, R):
+def _check_tachyons(F, R, rid="R4", consumed=True):
     sites = []
     for k, f in sorted(F.functions.items()):
         for n in walk(f["body"]):
             if is_call(n) and (n.get("fn") or "").endswith("::flag_tachyon"):
                 sites.append((f, n))
     if len(sites) < 8:
-        R.broken("R4: only %d flag_tachyon sites found" % len(sites))
+        R.broken(rid + ": only %d flag_tachyon sites found" % len(sites))
     flagged = set()
     for f, n in sites:
         S = Struct(f)
@@ -338,9 +338,11 @@ def _check_tachyons(F, R):
             earlier = " ".join(Rr.r(s_) for s_ in body[:idx[0]]) if idx else ""
             if ok and re.search(r"sqrt\(", earlier):
                 ok = False
-        R.check("R4", bool(ok), inst, F.loc(f, n),
-                "tachyon flag is not `m^2 < 0` tested on the squared mass before sqrt(|m^2|)", key="R4|%s|%s" % (f["name"].split("::")[-1], label))
+        R.check(rid, bool(ok), inst, F.loc(f, n),
+                "tachyon flag is not `m^2 < 0` tested on the squared mass before sqrt(|m^2|)", key=rid + "|%s|%s" % (f["name"].split("::")[-1], label))
         flagged.add(f["name"])
+    if not consumed:
+        return
     # consumed => flagged: sectors of the MSSM whose masses are read by the a_mu code
     roots = [k for k, f in F.functions.items() if f["file"] in (
         "src/MSSMNoFV/gm2_1loop.cpp", "src/MSSMNoFV/gm2_2loop.cpp", "src/MSSMNoFV/gm2_uncertainty.cpp")]
